@@ -7,6 +7,9 @@ import stogcases as sc
 from . import c11
 
 LEAN = "PystogVerif.Props.C10"
+# theorems about the code generated from stog.py by tools/translate_stog.py (built when these methods translate)
+LEAN_GEN = "PystogVerif.Props.C10Gen"
+STOG_METHODS = ['apply_scales_and_offset', 'merge_data']
 ENTRIES = []
 RULE = ("1-4 datasets with overlapping Q ranges on the 0.01 lattice (30% with raw abscissae off the lattice), per-dataset crops, "
         "scales, Q offsets that are and are not multiples of 0.01, optional global window; merge; all permutations of the add order; "
